@@ -85,9 +85,12 @@ Section FifoBridge.
     - rewrite assoc_remk_other; auto.
   Qed.
 
-  Lemma mit_find_some (ix : list (K * nat)) k :
-    negb (mit_eqb (mit_find ix k) None) = match assoc k ix with Some _ => true | None => false end.
-  Proof. unfold mit_find. destruct (assoc k ix); reflexivity. Qed.
+  (* `keyed_position = m_keyed_elements.find(k)` compared with end(): the case split is on the SEMANTIC scrutinee
+     (is k in the index?), after which the comparison computes, whichever way the source spells and orients it
+     (`it != end()`, `end() != it`, `it == end()` with the branches swapped, an early return, ...) *)
+  Ltac find_cases k s n A :=
+    cbv zeta; unfold mit_find;
+    destruct (assoc k (fl_index s)) as [n|] eqn:A; cbn [mit_eqb negb andb orb].
 
   (* ---- the private helpers ---- *)
 
@@ -115,8 +118,8 @@ Section FifoBridge.
         [|destruct (nth_error (fl_cells s) n); simpl; auto]].
     all: proj; destruct (nth_error (fl_cells s) n) as [e|] eqn:N; cbn [bind]; [|simpl; auto].
     all: assert (L : n < List.length (fl_cells s)) by (apply nth_error_Some; congruence).
-    all: destruct (fc_keyed e) as [k0|] eqn:Ek; cbn [opt_has_value opt_value bind]; proj; rewrite ?Ek;
-         cbn [opt_has_value opt_value bind]; proj.
+    all: destruct (fc_keyed e) as [k0|] eqn:Ek; cbn [opt_has_value opt_value bind negb]; proj; rewrite ?Ek;
+         cbn [opt_has_value opt_value bind negb]; proj.
     all: try (destruct (index_erase (fl_index s) (Some k0)) as [ix|]; cbn [bind]; [|simpl; auto]; proj;
               rewrite ?N; cbn [bind]; rewrite !vset_lt by auto; cbn [bind]; proj).
     (* the decrement: whatever the guard of the source is, it fails exactly when m_used_size is 0 *)
@@ -146,8 +149,8 @@ Section FifoBridge.
     unfold vget. destruct (nth_error (fl_cells s) m) as [e|] eqn:N; cbn [bind]; [|simpl; auto].
     assert (L : m < List.length (fl_cells s)) by (apply nth_error_Some; congruence).
     cbn [iter_node mit_engage].
-    destruct (fc_keyed e) as [k0|] eqn:Ek; cbn [opt_has_value opt_value bind]; proj; rewrite ?N; cbn [bind];
-      rewrite ?Ek; cbn [opt_has_value opt_value bind]; proj.
+    destruct (fc_keyed e) as [k0|] eqn:Ek; cbn [opt_has_value opt_value bind negb]; proj; rewrite ?N; cbn [bind];
+      rewrite ?Ek; cbn [opt_has_value opt_value bind negb]; proj.
     - destruct (index_erase (fl_index s) (Some k0)) as [ix|] eqn:Ex; cbn [bind]; [|simpl; auto]. proj.
       rewrite N. cbn [bind]. rewrite vset_lt by auto. cbn [bind]. proj.
       unfold umap_emplace. rewrite (index_erase_keeps_absent _ _ _ _ Ex A).
@@ -163,27 +166,26 @@ Section FifoBridge.
 
   Lemma g_do_insert_update_ok (s : fifol K V) k v a : req (g_do_insert_update s k v a) (fl_ins s k v a).
   Proof.
-    unfold g_do_insert_update, fl_ins. rewrite mit_find_some. unfold mit_find.
-    destruct (assoc k (fl_index s)) as [n|] eqn:A.
-    - destruct (a_upd a); [|simpl; auto].
+    unfold g_do_insert_update, fl_ins. find_cases k s n A.
+    - destruct (a_upd a); cbn [negb]; [|simpl; auto].
       callee (g_do_update_ok s k n v A). unfold bind. crush; finish.
-    - destruct (a_ins a); [|simpl; auto].
+    - destruct (a_ins a); cbn [negb]; [|simpl; auto].
       callee (g_do_insert_ok s k v A). unfold bind. crush; finish.
   Qed.
 
   (* do_find(key) is not const in the source: the generated function also returns the (unchanged) state *)
   Lemma g_do_find_ok (s : fifol K V) k : req (g_do_find s k) (do r <- fl_find s k; Ok (s, r)).
   Proof.
-    unfold g_do_find, fl_find, cell_of. rewrite mit_find_some. unfold mit_find, mit_second.
-    destruct (assoc k (fl_index s)) as [n|] eqn:A; [|simpl; auto]. rewrite A. cbn [bind].
+    unfold g_do_find, fl_find, cell_of. find_cases k s n A; [|simpl; auto].
+    unfold mit_second. rewrite A. cbn [bind].
     destruct (l_deref (fl_list s) (It n)) as [d|] eqn:D; [|simpl; auto]. cbn [bind].
     destruct (vget "list node" (fl_cells s) d); simpl; auto.
   Qed.
 
   Lemma g_erase_1_ok (s : fifol K V) k : req (g_erase_1 s k) (fl_erase s k).
   Proof.
-    unfold g_erase_1, fl_erase. rewrite mit_find_some. unfold mit_find, mit_second.
-    destruct (assoc k (fl_index s)) as [n|] eqn:A; [|simpl; auto]. rewrite A. cbn [bind].
+    unfold g_erase_1, fl_erase. find_cases k s n A; [|simpl; auto].
+    unfold mit_second. rewrite A. cbn [bind].
     callee (g_do_erase_ok s n). unfold bind. crush; finish.
   Qed.
 
@@ -215,9 +217,8 @@ Section FifoBridge.
     match goal with |- req (bind (foldM ?F _ _) _) _ =>
       assert (G : forall l s n, req (foldM F l (s, n)) (fl_erase_range s l n)) end.
     { clear. induction l as [|k r IH]; intros s n; simpl; auto.
-      rewrite mit_find_some. unfold fl_erase, mit_find, mit_second.
-      destruct (assoc k (fl_index s)) as [idx|] eqn:A; cbn [bind]; [|apply IH].
-      rewrite A. cbn [bind]. callee (g_do_erase_ok s idx).
+      unfold fl_erase. find_cases k s idx A; cbn [bind]; [|apply IH].
+      unfold mit_second. rewrite A. cbn [bind]. callee (g_do_erase_ok s idx).
       destruct (g_do_erase s (It idx)) as [s1|], (fl_do_erase s idx) as [s2|]; simpl; intros P; try contradiction; auto.
       subst. match goal with |- req (foldM _ _ (_, ?m)) (fl_erase_range _ _ ?m') => replace m with m' by lia end.
       apply IH. }
